@@ -217,9 +217,27 @@ pub fn produce(r: &mut Rng, out: &mut String, b: &str, t: &[(u32, u32)], which: 
             for &(s, l) in t {
                 writeln!(out, "insert_range b9 in:{} ex:{}", s, s as u64 + l as u64).unwrap();
             }
+            // the destination holds something else first: chunks of either kind at the same keys / positions as the
+            // source's chunks, with different cardinalities (Clone::clone_from reuses the destination's buffers)
             writeln!(out, "new {}", b).unwrap();
-            writeln!(out, "insert_range {} in:0 ex:5000", b).unwrap();
-            writeln!(out, "clone {} b9", b).unwrap();
+            if r.chance(1, 2) {
+                writeln!(out, "insert_range {} in:0 ex:5000", b).unwrap();
+            }
+            let mut keys: Vec<u64> = t.iter().map(|&(s, _)| (s >> 16) as u64).collect();
+            keys.dedup();
+            for &k in keys.iter().take(4) {
+                match r.below(4) {
+                    0 => writeln!(out, "insert_range {} in:{} in:{}", b, k << 16, (k << 16) + r.range(4097, 9000)).unwrap(),
+                    1 => writeln!(out, "insert_range {} in:{} in:{}", b, (k << 16) + 60000, (k << 16) + 65535).unwrap(),
+                    2 => writeln!(out, "insert {} {}", b, (k << 16) + r.below(65536)).unwrap(),
+                    _ => {}
+                }
+            }
+            if r.chance(1, 4) {
+                writeln!(out, "clone {} b9", b).unwrap();
+            } else {
+                writeln!(out, "clone_from {} b9", b).unwrap();
+            }
             "clone-over-dirty"
         }
     }
